@@ -1,15 +1,31 @@
 """C02 -- Readers observe only whole committed snapshots.
 
-Proof      : coq/Props/C02.v over Model/Reader.v (readers on top of the commit machine + file plane): for every
-             interleaving of any number of readers with writers that commit, fail, get interrupted, crash and roll
-             back, a read resolves the pointer once, at an instant between its start and its end, and every file of
-             the resolved version is present (write-once files, rollback deletes only never-committed files);
-             pointer history only grows (per-handle monotonicity); one transaction = one flip (atomic visibility).
+Proof      : coq/Props/C02.v over Model/Reader.v (readers on top of the commit machine + file plane), for every
+             interleaving of any number of read calls with writers that commit, fail, get interrupted, crash and roll
+             back.  The reader machine is run with the number of pointer resolutions per call that the translator COUNTS
+             on the source of every read API (translator/gen_readres.py -> Gen/GenReadRes.v, read_budget = 1):
+               C02_snapshot_read   a call that has returned resolved the pointer at an instant between its start and its
+                                   end, no file read failed, the files it read are exactly those of the version current at
+                                   that instant and -- for any (write-once) file contents -- its rows are that snapshot's rows;
+               C02_read_in_progress the same invariant while the call is running;
+               C02_api_single_resolution  every read API (scan, to_pandas, scan_batches, iter_records, iter_pandas,
+                                   row_count) resolves the pointer exactly once on every returning path (source count);
+               C02_snapshot_read_needs_single_resolution  with two resolutions per call the statement is FALSE (witness),
+                                   with one it holds;
+               C02_monotone        a call that started after another one had returned resolved the pointer at an index
+                                   that is not smaller (successive reads through one handle never move backwards);
+               C02_txn_atomic      one attempt of Transaction.commit reaches MetadataManager.commit exactly once (source
+                                   count; one flip per commit: GenCommit.v), no transaction flips twice, and the operations
+                                   visible after i flips are the initial ones + the transactions of exactly those i flips.
+             File CONTENTS are not modelled (names are fresh, files write-once: C04 / C16); what rows each real API makes
+             of a version's files is judged by the oracle below (and C12 / C13).
 Tie        : real read APIs (scan, parallel scan, scan without checksum verification, scan_batches, iter_records,
-             row_count) run as actors under the scheduler against real writers (appends, multi-append transactions,
-             rollbacks, snapshot deletions); the table content after every pointer flip is recorded by an independent
-             reader; the model's prediction -- the result equals the content at the flip count observed at the
-             reader's single pointer resolution -- is compared with what the API returned.
+             row_count, and scan / parallel scan / scan_batches / iter_records WITH a filter) run as actors under the
+             scheduler against real writers (appends, multi-append transactions, rollbacks, snapshot deletions), on tables
+             with history and on tables with NO current snapshot (racing the first commit); the table content after every
+             pointer flip is recorded by an independent reader; the model's predictions -- exactly one pointer read per
+             call; the result equals the content at the flip count observed at that resolution -- are compared with what
+             the API did and returned.
 Oracle     : the returned multiset equals the content of SOME pointer version between the call's start and its end;
              successive reads through one handle never move backwards; a multi-append transaction is seen whole or
              not at all; no read raises.
@@ -24,17 +40,31 @@ from harness.lib import protocol as P, sched as S
 from harness.props import c01
 
 LEVEL = "proof"
-THEOREMS = ["C02_snapshot_read", "C02_monotone", "C02_txn_atomic"]
+THEOREMS = ["C02_snapshot_read", "C02_read_in_progress", "C02_api_single_resolution", "C02_snapshot_read_needs_single_resolution",
+            "C02_monotone", "C02_txn_atomic"]
 MANIFEST_ENTRY = {
-    "level_text": "C02_snapshot_read / C02_monotone / C02_txn_atomic proved in Coq for every interleaving of any number of readers "
-                  "with writers that commit, fail, are interrupted, crash or roll back; every read API of the real library is "
-                  "run under the deterministic scheduler against real writers and must return exactly the content of the version "
-                  "current at its (single) pointer resolution, which the model predicts; an implementation-only oracle checks the "
-                  "property's own statement (some version between start and end; monotone per handle; transactions whole)",
-    "level_note": "trusted: Coq kernel; scheduler harness; pyarrow's thread pool in parallel scans runs inside one scheduler step "
-                  "(its workers only read immutable files after the file list is fixed); no garbage collection concurrent with "
-                  "readers (C05/C06)",
-    "technique": "Coq invariant proof (readers x writers) + scheduled differential execution of every read API",
+    "level_text": "proved in Coq for every interleaving of any number of read calls with writers that commit, fail, are interrupted, "
+                  "crash or roll back: a read call that returned resolved the pointer at one instant between its start and its end, "
+                  "none of its file reads failed, and the files it read are exactly those of the version current at that instant (so "
+                  "its rows are that snapshot's rows, for any write-once file contents) (C02_snapshot_read, C02_read_in_progress); a "
+                  "call started after another returned never resolves an earlier index (C02_monotone); the operations visible after i "
+                  "flips are the initial ones plus the transactions of exactly those flips, none twice (C02_txn_atomic).  The two code "
+                  "facts the model rests on are COUNTED on the source on every run (GenReadRes.v): every read API resolves the "
+                  "pointer exactly once (C02_api_single_resolution; with two resolutions the statement is refuted: "
+                  "C02_snapshot_read_needs_single_resolution) and one attempt of Transaction.commit reaches the commit protocol "
+                  "exactly once.  Every read API of the real library, with and without filter, on tables with history and on tables "
+                  "without current snapshot, is run under the deterministic scheduler against real writers; it must resolve the "
+                  "pointer once and return exactly the content of the version current at that resolution (model prediction), and an "
+                  "implementation-only oracle checks the property's own statement (some version between start and end; monotone per "
+                  "handle; transactions whole; no read raises)",
+    "level_note": "file contents are not in the Coq model (a file's content is a function of its fresh, write-once name; the theorems "
+                  "quantify over that function) -- that each real API returns the rows of the files it read is judged by the scheduled "
+                  "oracle, filters/pruning by C12/C13; the source count treats `if <param> is None: <param> = refresh()` as not taken when "
+                  "the caller passes its own resolution result (callers and callees golden-pinned); trusted: Coq kernel; scheduler "
+                  "harness; pyarrow's thread pool in parallel scans runs inside one scheduler step (its workers only read immutable "
+                  "files after the file list is fixed); no garbage collection concurrent with readers (C05/C06)",
+    "technique": "Coq invariant proof (readers x writers, resolution budget counted on the source) + scheduled differential "
+                 "execution of every read API",
     "design_ref": "DESIGN.md section 5 C02",
 }
 
@@ -309,13 +339,27 @@ def analyse(case: Dict[str, Any], res: P.CaseResult, readers: List[int]) -> Tupl
 
 
 def run(ctx) -> None:
-    ctx.rule = ("schedules of 1-2 readers (each API, two successive calls per handle) with 1-3 writers (append, multi-append "
-                "transaction, rollback, snapshot deletion) at storage-operation granularity (pointer reads, manifest reads, data "
+    ctx.rule = ("schedules of 1-2 readers (each API with and without filter, two successive calls per handle) with 1-3 writers (append, "
+                "multi-append transaction, rollback, snapshot deletion), on tables with history and on tables without current "
+                "snapshot (first commit), at storage-operation granularity (pointer reads, manifest reads, data "
                 "file reads, all writer protocol steps); bounded-preemption enumeration + random; distinct = executed schedule")
     ctx.trusted_base += ["harness/lib/sched.py, protocol.py (per-flip table content recorded by an independent reader)"]
     ctx.assumptions += ["no garbage collection concurrent with readers (C05/C06)"]
-    ctx.proofs(THEOREMS, gen_files=["GenCommit.v"])
+    ctx.proofs(THEOREMS, gen_files=["GenCommit.v", "GenReadRes.v"])
     ctx.allow_axioms([])
+    # durability is not this property's subject (C03 / C16) and no fault is injected into fsync here: the ~16 fsyncs of every
+    # commit are skipped for the duration of the schedules (a quarter of the run time), visibility between actors is unaffected
+    import os as _os
+    real_fsync = _os.fsync
+    _os.fsync = lambda _fd: None
+    ctx.assumptions += ["os.fsync is a no-op during the scheduled runs (durability: C03/C16)"]
+    try:
+        _schedules(ctx)
+    finally:
+        _os.fsync = real_fsync
+
+
+def _schedules(ctx) -> None:
     quick = ctx.tier == "quick"
     total = 0
     bad_all: List[Dict[str, Any]] = []
@@ -328,7 +372,7 @@ def run(ctx) -> None:
     # between every two consecutive storage operations of the reader + bounded-preemption enumeration
     for ei, (nsnap, writers) in enumerate(EMPTY_SETS):
         for ai, api in enumerate(ALL_APIS):
-            if quick and ei >= 1 and (ei + ai) % 4 != 0:
+            if quick and ei >= 1 and (ei + ai) % 3 != 0:
                 continue
             ops = writers + [{"kind": "read", "apis": [api, ALL_APIS[(ai + 3) % len(ALL_APIS)]]}]
             case = {"ops": ops, "clock": "tick", "topology": "separate", "yield_filter": reader_filter, "track_states": True,
@@ -339,19 +383,19 @@ def run(ctx) -> None:
             nr = sum(1 for a in probe.schedule if a == rname)
             rs = list(range(1, nr + 1))
             if quick:
-                # the first call's steps (the table is empty: few storage operations) all; a sample of the second call's
+                # every step of the first call (the table has no current snapshot: few storage operations) and the first
+                # steps of the second; the rest of the second call in the thorough tier
                 first_call = 0
                 for e in probe.log:
                     if e["actor"] == rname:
-                        first_call += 1
+                        first_call += 1 if reader_filter(e["op"], e["path"], tuple(e.get("phase") or ())) else 0
                         if e["op"] == "ReadEnd":
                             break
-                head = min(first_call + 1, 16)      # logged operations of the first call >= its scheduler steps
-                rs = rs[:head] + sorted(ctx.rng.sample(rs[head:], min(2, len(rs[head:]))))
+                rs = rs[:min(first_call + 2, 12)]
             eruns = [([("between", rname, r, wnames)],
                       P.run_case(ctx.scratch, c01._fix_case(case), between_steps_chooser(rname, r, wnames), tag="c02e"))
                      for r in rs]
-            if not quick or ai % 2 == ei % 2:
+            if not quick or ai % 4 == ei % 4:
                 eruns += list(c01.explore(ctx, case, 2, 3 if quick else 120))
             for dev, res in eruns:
                 total += 1
